@@ -1,7 +1,7 @@
 //! Decoder history generation: representative atoms per decoder, bounded-exhaustive core
 //! (short streams x all cut sets x capacity patterns) and the random history strategy.
 
-use crate::drive_dec::{BomMode, DecHistory, Sink, CAP_AMPLE, CAP_QUERY};
+use crate::drive_dec::{BomMode, DecHistory, Sink, CAP_AMPLE, CAP_QUERY, CAP_QUERY_EXACT};
 use crate::gen::{self, pick};
 use crate::golden::{golden, Cell};
 use crate::model_dec::{algo_for, Algo};
@@ -287,6 +287,8 @@ pub struct Profile {
     pub small_caps_weight: u8,
     /// allow CAP_QUERY steps
     pub queries: bool,
+    /// query steps offer exactly the answer (C07) instead of max(answer, documented minimum)
+    pub exact_queries: bool,
     pub modes: &'static [BomMode],
     pub sinks: &'static [Sink],
     /// probability weight (0..=255) that the stream starts with a BOM or look-alike
@@ -336,7 +338,11 @@ pub fn history(enc: &'static Encoding, prof: Profile) -> impl Strategy<Value = D
             .iter()
             .map(|x| {
                 if prof.queries && x % 5 == 0 {
-                    CAP_QUERY
+                    if prof.exact_queries {
+                        CAP_QUERY_EXACT
+                    } else {
+                        CAP_QUERY
+                    }
                 } else if small {
                     mincap + pick(*x, 4)
                 } else if x % 11 == 0 {
